@@ -123,3 +123,75 @@ Example C03_ex_parallel_ok :
   | Err _ => (0, 0, [])
   end = (10, 9, [Some 2; Some 0; Some 1; Some 0; Some 2; Some 1]).
 Proof. vm_compute. reflexivity. Qed.
+
+(* ====================================================================================================
+   Runs on an EXISTING store: resume with cleanup=False and / or fixed_indices (Model/ParResume.v on top of C06's
+   Model/MapResume.v).  The tasks of a generation are the selected MISSING indices of its mapped functions (and one
+   task per function without mapped inputs); `seq_run_sel` is MapResume's sequential run over the given
+   generations (map_run_sel = the instance gens = generations p, by reflexivity). *)
+From Verif Require Import Base.PyRange Model.MapResume Model.ParResume Proofs.MapResumeFacts Proofs.ParResumeFacts.
+
+(* for EVERY list of schedules and every dump_in_subprocess assignment: the store left behind, the returned
+   outputs, and -- as a multiset -- the whole trace (calls and dumps) are those of the sequential run *)
+Theorem C03_resume_par_equiv_seq : forall body dis p gens inputs user fx rs pis ps,
+  NoDup (flat_map fouts (concat gens)) -> layered gens = true ->
+  seq_run_sel body p gens inputs user fx rs = ROk ps ->
+  exists ps', par_run_sel body dis p gens inputs user fx rs pis = Ok ps'
+              /\ MapResume.p_store ps' = MapResume.p_store ps /\ MapResume.p_out ps' = MapResume.p_out ps
+              /\ Permutation (MapResume.p_tr ps') (MapResume.p_tr ps).
+Proof. exact par_run_sel_equiv. Qed.
+Print Assumptions C03_resume_par_equiv_seq.
+
+(* calls exactly once on an existing store: under any schedule the calls are, as a multiset, exactly the selected
+   elements that miss some output (one call of a function without mapped inputs unless its output is stored);
+   nothing that is stored is called again.  (C06_part_computes_exactly gives the list for the sequential run.) *)
+Theorem C03_resume_calls_exactly_once : forall body dis (c : ctx) fx rs user pis ps,
+  sized c rs ->
+  (forall g f o, In g (x_p c) -> In f (x_p c) -> In o (fouts g) -> In o (fouts f) -> g = f) ->
+  all_shapes user (x_inputs c) (x_p c) = Ok (x_shapes c) ->
+  NoDup (flat_map fouts (concat (generations (x_p c)))) -> layered (generations (x_p c)) = true ->
+  map_run_sel body (x_p c) (x_inputs c) user fx rs = ROk ps ->
+  exists ps', par_run_sel body dis (x_p c) (generations (x_p c)) (x_inputs c) user fx rs pis = Ok ps'
+              /\ MapResume.p_store ps' = MapResume.p_store ps /\ MapResume.p_out ps' = MapResume.p_out ps
+              /\ Permutation (calls_of (MapResume.p_tr ps')) (flat_map (calls_for c fx rs) (concat (generations (x_p c)))).
+Proof.
+  intros body dis c fx rs user pis ps H1 H2 H3 H4 H5 H6.
+  destruct (par_run_sel_equiv body dis _ _ _ _ _ _ pis ps H4 H5 H6) as (ps' & Hp & Hs & Ho & Ht).
+  exists ps'. repeat split; try assumption.
+  destruct (part_run_exact body c fx rs H1 H2 user ps H3 H4 H6) as [A _ _ _]. cbn [app calls_of flat_map] in A.
+  rewrite <- A. unfold calls_of. now apply ParGenFacts.Permutation_flat_map_l.
+Qed.
+Print Assumptions C03_resume_calls_exactly_once.
+
+(* every element that is computed is dumped exactly as often as in the sequential run (once per output) *)
+Definition dumps_of (tr : list action) : list (str * nat) :=
+  flat_map (fun a => match a with ADump o pos _ => [(o, pos)] | _ => [] end) tr.
+Theorem C03_resume_single_dump : forall body dis p gens inputs user fx rs pis ps,
+  NoDup (flat_map fouts (concat gens)) -> layered gens = true ->
+  seq_run_sel body p gens inputs user fx rs = ROk ps ->
+  exists ps', par_run_sel body dis p gens inputs user fx rs pis = Ok ps'
+              /\ Permutation (dumps_of (MapResume.p_tr ps')) (dumps_of (MapResume.p_tr ps)).
+Proof.
+  intros body dis p gens inputs user fx rs pis ps H1 H2 H3.
+  destruct (par_run_sel_equiv body dis _ _ _ _ _ _ pis ps H1 H2 H3) as (ps' & Hp & _ & _ & Ht).
+  exists ps'. split; [exact Hp|]. unfold dumps_of. now apply ParGenFacts.Permutation_flat_map_l.
+Qed.
+Print Assumptions C03_resume_single_dump.
+
+(* a non-trivial instance: the folder holds what map(fixed_indices={"i": 0}) left; the resuming run is executed
+   under a non-trivial schedule *)
+Definition ex_gens2 : list (list mfunc) := firstn 2 ex_gens.     (* without the reducing f3: axis i may be fixed *)
+Definition ex_rs : rstore :=
+  match seq_run_sel sym_body (concat ex_gens2) ex_gens2 ex_inputs [] (Some [(s "i", FInt 0%Z)]) empty_store with
+  | ROk ps => MapResume.p_store ps
+  | RErr _ _ => empty_store
+  end.
+Example C03_ex_resume :
+  match seq_run_sel sym_body (concat ex_gens2) ex_gens2 ex_inputs [] None ex_rs,
+        par_run_sel sym_body ex_dis (concat ex_gens2) ex_gens2 ex_inputs [] None ex_rs [[3; 0; 2; 1]; [1; 0]] with
+  | ROk ps, Ok ps' => (length (calls_of (MapResume.p_tr ps)), calls_of (MapResume.p_tr ps'))
+  | _, _ => (0, [])
+  end = (6, [(s "f1", Some 2); (s "f0", Some 1); (s "f1", Some 1); (s "f0", Some 2); (s "f2", Some 2); (s "f2", Some 1)]).
+Proof. vm_compute. reflexivity. Qed.
+Example C03_ex_resume_layered : layered ex_gens2 = true /\ NoDup (flat_map fouts (concat ex_gens2)).
+Proof. split; [vm_compute; reflexivity|]. apply MapSpecFacts.nodup_str_NoDup. vm_compute. reflexivity. Qed.
